@@ -20,10 +20,21 @@ def sample(expected, where):
     SAMPLES.append((where, expected, plumpy.Process.current()))
 
 
+class Boom(Exception):
+    pass
+
+
 def _hook(name):
     def method(self, *a, **k):
         sample(self, f'hook:{name}')
-        return getattr(super(CP, self), name)(*a, **k)
+        f = PLAN.get('_fault')
+        if f is None or f['hook'] != name or f['fired'] or self.inputs.name != f['who']:
+            return getattr(super(CP, self), name)(*a, **k)
+        f['fired'] = True    # the hook fails once, before or after the base implementation ran
+        if not f['after']:
+            raise Boom(name)
+        getattr(super(CP, self), name)(*a, **k)
+        raise Boom(name)
     method.__name__ = name
     return method
 
@@ -59,6 +70,8 @@ class CP(plumpy.Process):
             if not parent.has_terminated():
                 parent.call_soon(parent.cb)
                 PLAN['_poked'] = True
+        if plan.get('control') and not plan.get('control_in_cb'):
+            do_control(self, f'{me}:run')
         if plan.get('nested') is not None:
             inner = CP(inputs={'name': plan['nested']}, loop=self.loop)
             PLAN['_procs'].append(inner)
@@ -80,6 +93,26 @@ class CP(plumpy.Process):
 
     def cb(self):
         sample(self, f'{self.inputs.name}:callback')
+        if PLAN[self.inputs.name].get('control_in_cb'):
+            do_control(self, f'{self.inputs.name}:callback')
+            PLAN['_ctl_done'] = True
+
+
+def do_control(expected, where):
+    """control requests on the target T whose hook may raise out of the request: afterwards the previous value is back"""
+    target = PLAN['_byname']['T']
+    for req in PLAN['_requests']:
+        try:
+            if req == 'pause':
+                target.pause('m')
+            elif req == 'play':
+                target.play()
+            else:
+                target.kill('k')
+        except Exception as e:  # noqa: BLE001
+            if isinstance(e, Boom):
+                PLAN['_escaped'] = True
+        sample(expected, f'{where}:after-{req}-request')
 
 
 for _h in HOOKS:
@@ -200,12 +233,78 @@ def nested(depth: int, a0: int, b0: int):
         plumpy.reset_event_loop_policy()
 
 
+FAULT_HOOKS = ['on_pausing', 'on_paused', 'on_playing', 'on_kill', 'on_killed', 'on_terminated', 'on_exit_running', 'on_exit_waiting', 'on_close']
+SEQS = [['pause'], ['pause', 'play'], ['kill'], ['pause', 'kill'], ['pause', 'play', 'pause']]
+
+
+def faulty(seq: int, hook: int, after: bool, frm: int, tsteps: int, a0: int):
+    """a hook of T raises while a control request on T is made from plain code, from the step of another process or from
+    a scheduled callback of another process: when the request has returned (or raised) the previous value is observed"""
+    sq, hk, fr, ts, a0 = pick(seq, len(SEQS)), pick(hook, len(FAULT_HOOKS)), pick(frm, 3), pick(tsteps, 4), pick(a0, 2)
+    del SAMPLES[:]
+    PLAN.clear()
+    PLAN['_procs'] = []
+    PLAN['_requests'] = SEQS[sq]
+    PLAN['_fault'] = dict(hook=FAULT_HOOKS[hk], after=bool(after), fired=False, who='T')
+    PLAN['T'] = dict(awaits0=1, awaits1=1, wait=True)
+    PLAN['A'] = dict(awaits0=a0, awaits1=0, control=(fr != 0), control_in_cb=(fr == 2), callback=(fr == 2))
+    loop = fresh_loop()
+    t = CP(inputs={'name': 'T'}, loop=loop)
+    procs = [t]
+    PLAN['_procs'].append(t)
+    PLAN['_byname'] = {'T': t}
+    try:
+        if ts:      # T is being stepped and has made `ts` loop callbacks of progress; otherwise it was never started
+            loop.create_task(t.step_until_terminated())
+            for _ in range(ts):
+                if loop.pending():
+                    loop.step()
+        if fr == 0:
+            do_control(None, 'plain')
+        else:
+            a = CP(inputs={'name': 'A'}, loop=loop)
+            procs.append(a)
+            PLAN['_procs'].append(a)
+            loop.create_task(a.step_until_terminated())
+        for _ in range(200):
+            if loop.pending():
+                loop.step()
+            elif t.paused and not t.has_terminated():
+                try:
+                    t.play()
+                except Exception:  # noqa: BLE001
+                    pass
+                sample(None, 'driver:after-play-request')
+            elif t.state == S.WAITING:
+                t.resume(5)
+            else:
+                break
+        facts = dict(scenario='failing hook under a control request', requests=SEQS[sq], hook=FAULT_HOOKS[hk], after_super=bool(after),
+                     requested_from=['plain code', 'step of another process', 'callback of another process'][fr])
+        if fr and not procs[1].has_terminated():
+            raise Violation('controller_not_terminated', state=str(procs[1].state), **facts)
+        evaluate(facts)
+        if plumpy.Process.current() is not None:
+            raise Violation('leaked_to_top_level', **facts)
+        NOTES.nontrivial = True
+        if PLAN['_fault']['fired']:
+            NOTES.witness('hook_failed_under_request')
+        if PLAN.get('_escaped'):
+            NOTES.witness('hook_error_escaped_the_request')
+        NOTES.info = facts
+    finally:
+        cleanup(loop, procs)
+
+
 PAUSE_MAX = [6]
-HARNESSES = {'concurrent': concurrent, 'nested': nested}
+HARNESSES = {'concurrent': concurrent, 'nested': nested, 'faulty': faulty}
 
 
 def shards(tier):
     out = [dict(name='nested', harness='nested', fixed={}, budget_s=300)]
+    for fr in range(3):
+        for sq in range(len(SEQS)):
+            out.append(dict(name=f'faulty/from={fr}/seq={sq}', harness='faulty', fixed=dict(frm=fr, seq=sq), budget_s=300 if tier == 'quick' else 1200))
     for launcher in range(3):
         for n3 in (False, True):
             for wait in (False, True):
@@ -234,5 +333,5 @@ RULE = 'paths over (number of await points per step, who launches a child, callb
 SOLVER_ROLE = 'selector role: the symbolic await counts / positions determine the interleaving; the solver enumerates them exhaustively'
 EXPLANATION = 'Process.current() sampled inside generated steps, hooks and callbacks must be the process owning the code; a probe task outside any process must see None'
 ASSUMPTIONS = ['FIFO StepLoop for the concurrent scenario; stock asyncio loop + plumpy.set_event_loop_policy() for re-entrant execute()']
-REQUIRED_WITNESSES = ['child_schedules_callback_of_its_launcher', 'parent_and_child_steps_open_at_once', 'child_launched_from_step', 'scheduled_callback', 'pause_hooks', 'interleaved_async_steps', 'nested_execute']
+REQUIRED_WITNESSES = ['child_schedules_callback_of_its_launcher', 'parent_and_child_steps_open_at_once', 'child_launched_from_step', 'scheduled_callback', 'pause_hooks', 'interleaved_async_steps', 'nested_execute', 'hook_failed_under_request', 'hook_error_escaped_the_request']
 LEVEL_TEXT = 'bounded exhaustive symbolic exploration of interleavings of concurrently stepping processes, children and re-entrant executions with Process.current() sampled at every await point, hook and callback'
